@@ -676,7 +676,8 @@ pub fn prescreen_child(property: &str, tier: &str) -> i32 {
                     if i >= programs.len() {
                         break;
                     }
-                    if programs[i].len() <= 2000 && prescreen_one(&programs[i]) {
+                    let c11 = property == "C11";
+                    if programs[i].len() <= 2000 && ((c11 && std::panic::catch_unwind(|| crate::c11::static_screen(&programs[i])).unwrap_or(true)) || prescreen_one(&programs[i])) {
                         println!("SUSPECT {}", serde_json::to_string(&programs[i]).unwrap());
                         let _ = std::io::stdout().flush();
                     }
@@ -751,7 +752,7 @@ pub fn prescreen(property: &str, tier: &str) -> Prescreen {
 fn prescreen_evidence(p: &Prescreen) -> Value {
     json!({
         "programs_screened": p.screened, "programs_flagged_and_moved_to_the_front": p.suspects.len(), "seconds": (p.seconds * 10.0).round() / 10.0,
-        "rule": "scheduling only, decides nothing: each corpus program is run natively (real cell types; irint, bcint and the JIT at two levels, 8 and 64 bits) on two fixed inputs against the reference interpreter; a program showing any difference is moved to the front of the job list of the time-boxed symbolic check; `programs_screened` is null when the child was stopped at its time cap",
+        "rule": "scheduling only, decides nothing: each corpus program is run natively (real cell types; irint, bcint and the JIT at two levels, 8 and 64 bits) on two fixed inputs against the reference interpreter; a program showing any difference is moved to the front of the job list of the time-boxed symbolic check (C11 additionally flags programs whose bytecode fails a path-insensitive over-approximation of the temporary clauses); `programs_screened` is null when the child was stopped at its time cap",
         "flagged_samples": p.suspects.iter().take(3).map(|s| report::short(s)).collect::<Vec<_>>(),
     })
 }
